@@ -122,6 +122,7 @@ impl Default for CachedQuality {
     }
 }
 
+#[cfg_attr(feature = "verif-hooks", derive(Clone))]
 pub struct SrtlaConnection {
     pub conn_id: u64,
     #[allow(dead_code)]
@@ -969,5 +970,38 @@ impl SrtlaConnection {
         // Reset reconnection tracking
         self.reconnection.last_reconnect_attempt_ms = now;
         self.reconnection.reconnect_failure_count = 0;
+    }
+}
+
+/// Read-only copy of the fields `test-internals` leaves private, for the
+/// verification harness (canonical state keys and monitor inputs only).
+#[cfg(feature = "verif-hooks")]
+#[derive(Clone, Copy, Debug, PartialEq)]
+pub struct VerifConnPrivate {
+    pub stall_latched_since_ms: u64,
+    pub stall_recovery_since_ms: u64,
+    pub stall_gate_events: u64,
+    pub stall_probe_counter: u32,
+    pub silence_pulled: bool,
+    pub silence_pulls: u64,
+    pub conn_timeout_ms: u64,
+    pub quality_multiplier: f64,
+    pub quality_last_calculated_ms: u64,
+}
+
+#[cfg(feature = "verif-hooks")]
+impl SrtlaConnection {
+    pub fn verif_private(&self) -> VerifConnPrivate {
+        VerifConnPrivate {
+            stall_latched_since_ms: self.stall_latched_since_ms,
+            stall_recovery_since_ms: self.stall_recovery_since_ms,
+            stall_gate_events: self.stall_gate_events,
+            stall_probe_counter: self.stall_probe_counter,
+            silence_pulled: self.silence_pulled,
+            silence_pulls: self.silence_pulls,
+            conn_timeout_ms: self.conn_timeout_ms,
+            quality_multiplier: self.quality_cache.multiplier,
+            quality_last_calculated_ms: self.quality_cache.last_calculated_ms,
+        }
     }
 }
